@@ -6,7 +6,9 @@
 // creates `shared` stamps that nobody changes afterwards; then `threads` threads
 // start together (and, with sync > 0, meet again at a barrier every `sync`
 // operations, so that they keep hitting the counter at the same time even on a
-// loaded machine) and each performs `ops` operations on its own stamps:
+// loaded machine) and each performs `ops` operations on its own stamps (with
+// `pre`: after the counter has been moved by that many draws, so that the burst
+// crosses 2^31 or 2^32):
 //   create / renew                       -> Fresh event with the stamp's value
 //   copy construction / copy assignment
 //   move construction / move assignment  -> Copy event with the value of the
@@ -185,6 +187,14 @@ struct World
     uint64_t seed = (uint64_t)arg["seed"].num();
     int nshared = (int)arg["shared"].num();
     long sync = arg.has("sync") ? (long)arg["sync"].num() : 0;
+    // start state: the counter is first moved (by renewals of a scratch stamp on this thread, not logged) so that
+    // the burst crosses a boundary of the value range, e.g. 2^31 or 2^32; `pre` = number of draws, limbs base 2^30
+    unsigned long long pre = 0;
+    if (arg.has("pre")) pre = ((unsigned long long)arg["pre"][(size_t)0].num() << 30) + (unsigned long long)arg["pre"][(size_t)1].num();
+    if (pre > 0) {
+      TimeStamp scratch;
+      for (unsigned long long k = 1; k < pre; ++k) scratch.renew();
+    }
     std::string out = arg["out"].str();
 
     std::vector<std::vector<Ev>> logs((size_t)T + 1);
